@@ -88,3 +88,57 @@ package types
 //@   frame nothing
 //@   ensures result == nil ==> forall k :: 0 <= k && k < len(txs) ==> txAllowedNow(txs[k])
 //@   loop 0 invariant forall k :: 0 <= k && k <= rangeindex ==> txAllowedNow(txs[k])
+
+// ---- C16: hash and signature bind every signed field ---------------------------------------------
+//@ smt (declare-fun sha256spec (Bytes) Bytes)
+//@ trusted func NewTx
+//@   opt fresh
+//@   frame nothing
+//@ trusted func github.com/33cn/chain33/common.Sha256
+//@   frame nothing
+//@   ensures bytes(result) == sha256spec(bytes(b)) && len(result) == 32
+//@ trusted func FreeTx
+//@   frame Transaction.Execer, Transaction.Payload, Transaction.Signature, Transaction.Fee, Transaction.Expire, Transaction.Nonce, Transaction.To, Transaction.GroupCount, Transaction.Header, Transaction.Next, Transaction.ChainID
+//@ pure func EncodeWithBuffer
+//@ pure func Encode
+//@ pure func CheckSign
+
+// every exported field of Transaction is copied (the clause is generated from the struct type)
+//@ func CloneTx [C16]
+//@   requires tx != nil
+//@   frame allocates
+//@   ensures fresh(result) && result != tx && fieldsEqual(result, tx)
+
+//@ func (*Signature).Clone [C16]
+//@   frame allocates
+//@   ensures sig == nil ==> result == nil
+//@   ensures sig != nil ==> fresh(result) && result != sig && fieldsEqual(result, sig)
+
+//@ func (*Transaction).Clone [C16]
+//@   frame allocates
+//@   ensures tx == nil ==> result == nil
+//@   ensures tx != nil ==> fresh(result) && fieldsEqualExcept(result, tx, Signature)
+//@   ensures tx != nil && tx.Signature == nil ==> result.Signature == nil
+//@   ensures tx != nil && tx.Signature != nil ==> result.Signature != nil && fieldsEqual(result.Signature, tx.Signature)
+
+// Hash = sha256(encode(tx with Signature and Header cleared)); every other field goes in.
+//@ func (*Transaction).Hash [C16]
+//@   opt safety=assumed
+//@   assert@call EncodeWithBuffer: fieldsEqualExcept(unbox(arg0), tx, Signature, Header) && unbox(arg0).Signature == nil && isnil(unbox(arg0).Header)
+//@   assert@call Sha256: arg0 == ret(EncodeWithBuffer)
+//@   ensures bytes(result) == sha256spec(bytes(ret(EncodeWithBuffer)))
+
+// FullHash = sha256(encode(tx)) including the signature.
+//@ func (*Transaction).FullHash [C16]
+//@   opt safety=assumed
+//@   assert@call EncodeWithBuffer: fieldsEqualExcept(unbox(arg0), tx, Signature) && (tx.Signature == nil ? unbox(arg0).Signature == nil : unbox(arg0).Signature != nil && fieldsEqual(unbox(arg0).Signature, tx.Signature))
+//@   assert@call Sha256: arg0 == ret(EncodeWithBuffer)
+
+// The signed bytes are the encoding of the transaction with only the signature cleared (the group
+// header is signed); an unsigned transaction never verifies.
+//@ func (*Transaction).checkSign [C16]
+//@   opt safety=assumed
+//@   assert@call Encode: fieldsEqualExcept(unbox(arg0), tx, Signature) && unbox(arg0).Signature == nil
+//@   assert@call CheckSign: arg0 == ret(Encode) && arg2 == tx.Signature && arg3 == blockHeight && arg1 == bytes(tx.Execer)
+//@   ensures tx.Signature == nil ==> !result
+//@   ensures result ==> called(CheckSign) && ret(CheckSign)
